@@ -301,6 +301,10 @@ impl Builder {
         match idx {
             Some(idx) => {
                 if idx < self.module.functions.len() {
+                    if self.selected_function != Some(idx) {
+                        // a block index of another function designates nothing here
+                        self.selected_block = None;
+                    }
                     self.selected_function = Some(idx);
                     Ok(())
                 } else {
@@ -387,6 +391,8 @@ impl Builder {
             None,
             vec![],
         ));
+        // make sure to unselect block too
+        self.selected_block = None;
         self.selected_function = None;
         Ok(())
     }
